@@ -427,8 +427,10 @@ class Module:
         opts.update(options or {})
         self.scalar = scalar
         cache = scratch("jit")
+        # a list is handed over as it is (the caller may want to observe what compile_forms does to it)
         self.objs, self.module, self.code = jit.compile_forms(
-            list(forms), options=opts, cache_dir=cache, cffi_extra_compile_args=list(extra_args))
+            forms if isinstance(forms, list) else list(forms), options=opts, cache_dir=cache,
+            cffi_extra_compile_args=list(extra_args))
         self.ffi = self.module.ffi
 
     def kernels(self, k, itype, sid):
